@@ -19,7 +19,8 @@ def sig_of_reject(rej):
         pm = re.findall(r'msg \|-> "([^"]*)"', rest)
         extra = ""
         if pm:
-            extra = ":" + re.sub(r"\d+", "N", pm[0].split(" @ ")[-1])
+            sites = sorted({re.sub(r":\d+$", "", m.split(" @ ")[-1]) + ":" + re.sub(r"\d+", "N", m.split(" @ ")[0])[:40] for m in pm})
+            extra = ":" + "|".join(sites)
         return f"{kind}:{fields}{extra}"
     if kind == "load_result":
         r = re.findall(r'"([^"]*)"', rest)
@@ -50,7 +51,10 @@ FIELDS = {
     "C11": {"palette", "load_result"},
     "C16": None,
     "C19": {"cel.routes_agree", "frame.single_layer_equals_cel", "tilemap.image_is_cel_image"},
-    "C05": {"panics", "usable", "load_result"},
+    "C04": {"crash"},
+    "C05": {"panics", "usable"},
+    "C12": {"memory_bound"},
+    "C15": {"load_result"},
 }
 
 
@@ -70,10 +74,11 @@ def relevant_sig(pid, sig, fields=None):
     if kind == "usable":
         return sig if "usable" in allowed else None
     if kind == "load_result":
-        # panics/aborts at load time concern C04; a refusal of a well-formed file concerns C01/C07/C11/C15...
+        # panics/aborts at load time concern C04 (aborts also C12); a refusal of a well-formed file or an
+        # accepted must-fail file concerns the properties that list load_result
         res = sig.split(":")[1]
         if res in ("panic", "abort", "hang", "stack_overflow", "killed"):
-            return sig if pid in ("C04", "C12") or "crash" in allowed else None
+            return sig if "crash" in allowed or (res in ("abort", "killed") and "memory_bound" in allowed) else None
         return sig if "load_result" in allowed else None
     return sig if kind in allowed else None
 
@@ -232,7 +237,7 @@ def batched_stage(rep, work, binpath, cases, name, batch=30000, **kw):
             total["rejects"] += res["rejects"]
             os.remove(part)
             k += 1
-            if len(rep.violations) >= 20:
+            if getattr(rep, 'nviol', 0) >= 5000:
                 break
     return total
 
@@ -615,3 +620,450 @@ def c14(rep, work, tier, seed):
 
 
 CHECKS.update({"C13": (c13, "fault_enumeration"), "C14": (c14, "model_checking")})
+
+
+# ------------------------------------------------------------------------------------------
+# C15: unsupported features
+def feature_switches(prog):
+    """Every way of switching on ONE documented-unsupported feature at a position where it can occur (input generation only;
+    the specification decides that each must be refused)."""
+    import copy
+    out = []
+    def sw(name, f):
+        q = copy.deepcopy(prog)
+        f(q)
+        out.append((name, q))
+    for v in [(2, 1), (1, 2), (3, 3), (255, 254)]:
+        sw("pixel_ratio", lambda q, v=v: q["hdr"].update(pixw=v[0], pixh=v[1]))
+    for v in [0, 1, 15, 24, 33, 64, 65535]:
+        sw("depth", lambda q, v=v: q["hdr"].update(depth=v))
+    for fi, fr in enumerate(prog["frames"]):
+        for ci, c in enumerate(fr["chunks"]):
+            k = c["k"]
+            def at(q, fi=fi, ci=ci):
+                return q["frames"][fi]["chunks"][ci]
+            if k == "layer":
+                for v in [3, 255, 65535]:
+                    sw("layer_type", lambda q, v=v, at=at: at(q).update(ltype=v))
+                for v in [19, 255, 65535]:
+                    sw("blend_mode", lambda q, v=v, at=at: at(q).update(blend=v))
+            elif k == "cel":
+                for v in [4, 65535]:
+                    sw("cel_type", lambda q, v=v, at=at: at(q).update(ctype=v))
+                if c.get("ctype") == 3:
+                    for v in [8, 16, 0, 33]:
+                        sw("bits_per_tile", lambda q, v=v, at=at: at(q).update(bits=v))
+            elif k == "tags" and fi == 0:
+                for ti in range(len(c["tags"])):
+                    for v in [3, 255]:
+                        sw("anim_direction", lambda q, v=v, ti=ti, at=at: at(q)["tags"][ti].update(dir=v))
+            elif k == "profile":
+                sw("icc_profile", lambda q, at=at: at(q).update(ptype=2, icc=[1, 2, 3]))
+                sw("fixed_gamma", lambda q, at=at: at(q).update(flags=1))
+            elif k == "tileset":
+                sw("tileset_not_embedded", lambda q, at=at: at(q).update(flags=at(q)["flags"] & ~2 | 1))
+    # a profile chunk can be added anywhere: add one at the front of frame 0
+    if prog["frames"]:
+        sw("icc_profile", lambda q: q["frames"][0]["chunks"].insert(0, {"k": "profile", "ptype": 2, "flags": 0, "icc": [9, 9]}))
+        sw("fixed_gamma", lambda q: q["frames"][0]["chunks"].append({"k": "profile", "ptype": 0, "flags": 1}))
+    for name, q in out:
+        for fr in q["frames"]:
+            fr.pop("pads", None)
+    return out
+
+
+def c15(rep, work, tier, seed):
+    b = build("dev")
+    out, states = mc_run(rep, work, "MC_Refuse", {}, ["RefusalInv", "Export"], workers=4)
+    cases = work.path("refuse.ndjson")
+    nsw = 0
+    def progs():
+        nonlocal nsw
+        for i, d in enumerate(map(json.loads, extract_json_prints(out, "PROG"))):
+            if d["feature"] != "none":
+                nsw += 1
+            yield {"id": f"refuse-{i}-{d['feature']}", "mode": "full", "meta": {"gen": "g1", "feature": d["feature"]}, "prog": d["prog"]}
+    n = write_cases(cases, progs())
+    res = stage_cases(rep, work, b, cases, "model-hosts")
+    if res["outcomes"][1] != nsw or res["outcomes"][0] != n - nsw:
+        rep.error(f"expected {nsw} must-fail and {n-nsw} well-formed programs, specification classified {res['outcomes']}")
+    rep.sample(first_cases(cases, 5, 5000)[-1])
+    # G3 hosts: every position of random sprites
+    hosts = work.path("hosts.ndjson")
+    gen(b, hosts, "default", seed, 25 if tier == "quick" else 600)
+    sw_cases = work.path("switched.ndjson")
+    m = 0
+    with open(sw_cases, "w") as f:
+        for line in open(hosts):
+            c = json.loads(line)
+            f.write(json.dumps(c) + "\n")
+            for j, (name, q) in enumerate(feature_switches(c["prog"])):
+                m += 1
+                f.write(json.dumps({"id": f"{c['id']}|{name}#{j}", "mode": "full", "meta": {"gen": "g5-feature", "feature": name}, "prog": q}) + "\n")
+    res2 = batched_stage(rep, work, b, sw_cases, "g3-hosts", batch=30000)
+    if res2["outcomes"][1] != m:
+        rep.error(f"{m} feature switches generated but the specification classified {res2['outcomes'][1]} programs as must-fail")
+    rep.cov["distinct_nontrivial"] = res["outcomes"][1] + res2["outcomes"][1]
+    rep.final = dict(rule="(host program, unsupported feature, position): all 51 switches on 3 model hosts (TLC, RefusalInv) and every applicable position of random "
+                          "sprites; each switched file must fail to load, each unswitched host must load; non-trivial = switched cases",
+                     trusted=TRUSTED, exhaustive=False)
+
+
+CHECKS["C15"] = (c15, "model_checking")
+
+
+# ------------------------------------------------------------------------------------------
+# C04 / C05 / C12: faults
+def faults(binpath, cases, out, kind, seed, n=0, mode="light", classes=None):
+    cmd = [binpath, "faults", "--in", cases, "--kind", kind, "--seed", str(seed), "--n", str(n), "--mode", mode, "--out", out]
+    if classes:
+        cmd += ["--classes", classes]
+    r = subprocess.run(cmd, capture_output=True, text=True)
+    if r.returncode != 0:
+        raise ToolError(f"faults {kind} failed: {r.stderr[-500:]}")
+
+
+def inconsistencies(prog):
+    """Programs with ONE internal inconsistency each (input generation; the specification classifies them as out of contract,
+    so loading may fail, and if it succeeds every accessor must work)."""
+    import copy
+    out = []
+    def mk(name, f):
+        q = copy.deepcopy(prog)
+        for fr in q["frames"]:
+            fr.pop("pads", None)
+        if f(q) is not False:
+            out.append((name, q))
+    def cels(q, pred):
+        return [c for fr in q["frames"] for c in fr["chunks"] if c["k"] == "cel" and pred(c)]
+    def first(q, pred):
+        cs = cels(q, pred)
+        return cs[0] if cs else None
+    nl = sum(1 for c in prog["frames"][0]["chunks"] if c["k"] == "layer") if prog["frames"] else 0
+    nf = len(prog["frames"])
+    img = lambda c: c.get("ctype") in (0, 2)
+    tm = lambda c: c.get("ctype") == 3
+    def upd(q, pred, **kw):
+        c = first(q, pred)
+        if c is None:
+            return False
+        c.update(**kw)
+    mk("zlib_cel_declares_more", lambda q: upd(q, img, ctype=2, w=first(q, img)["w"] + 1) if first(q, img) else False)
+    mk("zlib_cel_declares_much_more", lambda q: upd(q, img, ctype=2, w=300, h=200) if first(q, img) else False)
+    mk("zlib_cel_declares_less", lambda q: upd(q, lambda c: img(c) and c["w"] > 1, ctype=2, w=1))
+    mk("raw_cel_declares_zero", lambda q: upd(q, img, w=0))
+    mk("tile_id_out_of_range", lambda q: (first(q, lambda c: tm(c) and c["tiles"]) or {"tiles": [0]})["tiles"].__setitem__(0, 1000) if first(q, lambda c: tm(c) and c["tiles"]) else False)
+    mk("tilemap_fewer_tiles", lambda q: upd(q, tm, w=5, h=5))
+    mk("tilemap_more_declared_huge", lambda q: upd(q, tm, w=2000, h=3))
+    for name, kw in [("tile_width_zero", dict(tw=0)), ("tile_height_zero", dict(th=0)), ("tile_size_zero", dict(tw=0, th=0)),
+                     ("tileset_count_bigger", dict(count=9)), ("tileset_count_zero", dict(count=0)), ("tileset_tile_bigger", dict(tw=4, th=4))]:
+        def f(q, kw=kw):
+            ts = [c for c in q["frames"][0]["chunks"] if c["k"] == "tileset"] if q["frames"] else []
+            if not ts:
+                return False
+            ts[0].update(**kw)
+        mk(name, f)
+    mk("link_to_frame_out_of_range", lambda q: upd(q, lambda c: c.get("ctype") == 1, link=nf + 3))
+    mk("link_to_frame_65535", lambda q: upd(q, lambda c: c.get("ctype") == 1, link=65535))
+    mk("image_cel_made_link_to_self_layer_missing", lambda q: upd(q, img, ctype=1, link=nf - 1 if nf > 1 else 0))
+    mk("cel_layer_out_of_range", lambda q: upd(q, lambda c: True, layer=nl + 2))
+    mk("cel_layer_65535", lambda q: upd(q, lambda c: True, layer=65535))
+    def lvl(q, i, v):
+        ls = [c for c in q["frames"][0]["chunks"] if c["k"] == "layer"] if q["frames"] else []
+        if len(ls) <= i:
+            return False
+        ls[i]["level"] = v
+    mk("first_layer_level_1", lambda q: lvl(q, 0, 1))
+    mk("first_layer_level_65535", lambda q: lvl(q, 0, 65535))
+    mk("second_layer_level_jump", lambda q: lvl(q, 1, 7))
+    def lt(q, frm, to, **kw):
+        ls = [c for c in q["frames"][0]["chunks"] if c["k"] == "layer" and c.get("ltype", 0) == frm] if q["frames"] else []
+        if not ls:
+            return False
+        ls[0].update(ltype=to, **kw)
+    mk("tilemap_layer_missing_tileset", lambda q: lt(q, 2, 2, tileset=["777"]))
+    mk("image_layer_becomes_tilemap_layer", lambda q: lt(q, 0, 2, tileset=["0"]))
+    mk("tilemap_layer_becomes_image_layer", lambda q: lt(q, 2, 0))
+    mk("image_layer_becomes_group", lambda q: lt(q, 0, 1))
+    mk("no_frames_declared_more", lambda q: q["hdr"].update(nframes=nf + 1))
+    mk("frames_declared_fewer", lambda q: q["hdr"].update(nframes=max(0, nf - 1)))
+    mk("zero_canvas", lambda q: q["hdr"].update(w=0, h=0))
+    def dupcel(q):
+        for fr in q["frames"]:
+            cs = [c for c in fr["chunks"] if c["k"] == "cel"]
+            if cs:
+                fr["chunks"].append(copy.deepcopy(cs[0]))
+                return
+        return False
+    mk("duplicate_cel", dupcel)
+    mk("dangling_user_data", lambda q: q["frames"][0]["chunks"].insert(0, {"k": "ud", "text": [[1]], "color": []}) if q["frames"] else False)
+    def udtags(q):
+        if not q["frames"]:
+            return False
+        ch = q["frames"][0]["chunks"]
+        ch.append({"k": "tags", "tags": []})
+        ch.append({"k": "ud", "text": [[1]], "color": []})
+    mk("user_data_beyond_tags", udtags)
+    return out
+
+
+def stress_cases(tier):
+    """Size-capped stress shapes (deep nesting, long sequences)."""
+    def nested(n):
+        chunks = [{"k": "layer", "flags": 1, "ltype": 1 if i + 1 < n else 0, "level": i, "name": []} for i in range(n)]
+        chunks.append({"k": "cel", "layer": n - 1, "ctype": 0, "w": 1, "h": 1, "px": [[1, 2, 3, 255]]})
+        return {"hdr": {"w": 1, "h": 1, "depth": 32}, "frames": [{"dur": 1, "chunks": chunks}]}
+    def many_frames(n):
+        return {"hdr": {"w": 1, "h": 1, "depth": 32}, "frames": [{"dur": i % 65536, "chunks": ([{"k": "layer", "flags": 1, "name": [76]}] if i == 0 else []) +
+                                                                 ([{"k": "cel", "layer": 0, "ctype": 0, "w": 1, "h": 1, "px": [[i % 256, 2, 3, 255]]}] if i % 1000 == 0 else [])} for i in range(n)]}
+    def many_flat_layers(n):
+        return {"hdr": {"w": 1, "h": 1, "depth": 32}, "frames": [{"dur": 1, "chunks": [{"k": "layer", "flags": 1, "name": [65]} for _ in range(n)]}]}
+    sizes = [2000, 60000] if tier == "quick" else [2000, 20000, 60000, 65535]
+    for n in sizes:
+        yield {"id": f"stress-nested-{n}", "mode": "light", "meta": {"gen": "g5c", "shape": "nested layers", "n": n}, "prog": nested(min(n, 65535))}
+    for n in ([3000] if tier == "quick" else [3000, 65535]):
+        yield {"id": f"stress-frames-{n}", "mode": "light", "meta": {"gen": "g5c", "shape": "frames", "n": n}, "prog": many_frames(n)}
+    for n in ([5000] if tier == "quick" else [5000, 65535]):
+        yield {"id": f"stress-layers-{n}", "mode": "light", "meta": {"gen": "g5c", "shape": "flat layers", "n": n}, "prog": many_flat_layers(n)}
+
+
+ALLOC_CAP = str(768 * 1024 * 1024)
+
+
+def fault_inputs(rep, work, b, tier, seed, mode, nseeds, nhavoc, classes=None, with_corpus=True):
+    seeds = work.path("seeds.ndjson")
+    gen(b, seeds, "default", seed, nseeds)
+    tiles = work.path("seeds2.ndjson")
+    gen(b, tiles, "tile", seed + 1, max(2, nseeds // 3))
+    with open(seeds, "a") as f:
+        f.write(open(tiles).read())
+    ff = work.path("fields.ndjson")
+    faults(b, seeds, ff, "fields", seed, mode=mode, classes=classes)
+    fp = work.path("framepairs.ndjson")
+    faults(b, seeds, fp, "framepairs", seed, mode=mode)
+    with open(ff, "a") as f:
+        f.write(open(fp).read())
+    allseeds = work.path("allseeds.ndjson")
+    with open(allseeds, "w") as f:
+        f.write(open(seeds).read())
+        if with_corpus:
+            for c in corpus_case_lines(6000):
+                f.write(json.dumps(c) + "\n")
+    hv = work.path("havoc.ndjson")
+    if nhavoc:
+        faults(b, allseeds, hv, "havoc", seed, n=nhavoc, mode=mode)
+    else:
+        open(hv, "w").close()
+    return seeds, ff, hv
+
+
+def c04(rep, work, tier, seed):
+    tot = 0
+    for prof in ("dev", "relchk"):
+        b = build(prof)
+        seeds, ff, hv = fault_inputs(rep, work, b, tier, seed, "load", 10 if tier == "quick" else 60, 40000 if tier == "quick" else 1500000)
+        env = {"ASEVER_ALLOC_CAP": ALLOC_CAP}
+        r1 = batched_stage(rep, work, b, ff, f"fields-{prof}", batch=60000, env=env)
+        r2 = batched_stage(rep, work, b, hv, f"havoc-{prof}", batch=100000, env=env)
+        if tier != "quick":
+            pairs = work.path("pairs.ndjson")
+            faults(b, seeds, pairs, "pairs", seed, n=3000, mode="load")
+            batched_stage(rep, work, b, pairs, f"pairs-{prof}", batch=100000, env=env)
+        st = work.path("stress.ndjson")
+        write_cases(st, stress_cases(tier))
+        stage_cases(rep, work, b, st, f"stress-{prof}", env=env, per_case_timeout=120)
+        tot += sum(r1["outcomes"]) + sum(r2["outcomes"])
+        if prof == "dev":
+            rep.sample(first_cases(ff, 3, 100000)[-1].get("meta"))
+            rep.sample(first_cases(hv, 1, 100000)[0].get("meta"))
+    rep.cov["distinct_nontrivial"] = tot
+    rep.final = dict(rule="structured single-field corruptions (every field of the encoder's field table x boundary values of its type) of random sprites, byte-level "
+                          "havoc/splice mutants of sprites and corpus files, size-capped stress shapes (deep nesting, many frames/layers); each loaded in an isolated "
+                          "worker on a 2 MiB stack in the unoptimised and the optimised profile with overflow checks and debug assertions on. TLC's protocol "
+                          "monitor (Trace_Load) accepts only `ok` and `err:*` as results; thorough adds pairs of field faults",
+                     trusted=TRUSTED + ["process isolation and watchdog in bin/vlib.py"],
+                     explanation="for arbitrary bytes the specification contributes the monitor and the fault taxonomy, not a proof")
+
+
+def c05(rep, work, tier, seed):
+    b = build("dev")
+    env = {"ASEVER_ALLOC_CAP": ALLOC_CAP}
+    # (a) one inconsistency per program: the specification classifies them; whatever loads must be fully usable
+    hosts = work.path("hosts.ndjson")
+    gen(b, hosts, "default", seed, 40 if tier == "quick" else 1500)
+    t2 = work.path("hosts2.ndjson")
+    gen(b, t2, "tile", seed + 5, 40 if tier == "quick" else 1500)
+    inc = work.path("inconsistent.ndjson")
+    m = 0
+    with open(inc, "w") as f:
+        for path in (hosts, t2):
+            for line in open(path):
+                c = json.loads(line)
+                for name, q in inconsistencies(c["prog"]):
+                    m += 1
+                    f.write(json.dumps({"id": f"{c['id']}|{name}", "mode": "full", "meta": {"gen": "g5-inconsistency", "class": name}, "prog": q}) + "\n")
+    r0 = batched_stage(rep, work, b, inc, "inconsistencies", batch=30000, env=env)
+    rep.sample(first_cases(inc, 4, 100000)[-1].get("meta"))
+    # (b) the C04 campaign in observing mode: every mutant that still loads gets the complete accessor sweep
+    seeds, ff, hv = fault_inputs(rep, work, b, tier, seed, "light", 8 if tier == "quick" else 40, 25000 if tier == "quick" else 600000)
+    r1 = batched_stage(rep, work, b, ff, "fields-usable", batch=60000, env=env)
+    r2 = batched_stage(rep, work, b, hv, "havoc-usable", batch=100000, env=env)
+    st = work.path("stress.ndjson")
+    write_cases(st, stress_cases(tier))
+    stage_cases(rep, work, b, st, "stress-usable", env=env, per_case_timeout=120)
+    rep.cov["distinct_nontrivial"] = r0["outcomes"][2] + r0["outcomes"][1]
+    rep.cov["inconsistent_programs"] = m
+    rep.final = dict(rule="(a) random sprites with ONE inconsistency each from 35 classes (declared sizes vs data, tile ids, tile sizes, link targets, layer indices, levels, "
+                          "missing tilesets, cel/layer type mismatches ...): the specification classifies each (must fail / out of contract / fine); "
+                          "(b) every field-fault and havoc mutant of C04's campaign that still loads. For whatever loads, the harness calls every public accessor "
+                          "with in-range arguments (frame/cel/tilemap/tile/tileset images, tile lookups on a grid incl. far coordinates, parents, visibility, tags, slices, "
+                          "user data, Debug) and TLC requires normal returns and documented image dimensions. Rejection at load is not demanded",
+                     trusted=TRUSTED)
+
+
+def c12(rep, work, tier, seed):
+    b = build("dev")
+    env = {"ASEVER_ALLOC_CAP": ALLOC_CAP}
+    seeds, ff, hv = fault_inputs(rep, work, b, tier, seed, "load", 10 if tier == "quick" else 80, 20000 if tier == "quick" else 400000,
+                                 classes="size,count,len,dim,index")
+    r1 = batched_stage(rep, work, b, ff, "inflated-fields", batch=60000, env=env)
+    r2 = batched_stage(rep, work, b, hv, "havoc", batch=100000, env=env)
+    if tier != "quick":
+        pairs = work.path("pairs.ndjson")
+        faults(b, seeds, pairs, "pairs", seed, n=2000, mode="load")
+        batched_stage(rep, work, b, pairs, "pairs", batch=100000, env=env)
+    # deflate bombs: highly compressible payloads under declared sizes
+    bombs = work.path("bombs.ndjson")
+    def bomb_cases():
+        for (w, h, n) in [(4096, 4096, 1 << 16), (65535, 65535, 1 << 20), (1, 1, 1 << 20), (65535, 1, 1 << 18)] + ([(65535, 65535, 1 << 24)] if tier != "quick" else []):
+            for depth, bpp in ((32, 4), (8, 1)):
+                px = [[0] * bpp] * (n // bpp)
+                chunks = [{"k": "pal", "first": 0, "last": 0, "entries": [{"flags": 0, "rgba": [0, 0, 0, 255]}]}, {"k": "layer", "flags": 1, "name": [76]},
+                          {"k": "cel", "layer": 0, "ctype": 2, "w": w, "h": h, "px": px, "store": "z9"}]
+                yield {"id": f"bomb-{w}x{h}-{n}-{depth}", "mode": "load", "meta": {"gen": "g5c", "shape": "deflate bomb", "decoded": n},
+                       "prog": {"hdr": {"w": 8, "h": 8, "depth": depth}, "frames": [{"dur": 1, "chunks": chunks}]}}
+    write_cases(bombs, bomb_cases())
+    stage_cases(rep, work, b, bombs, "bombs", env={"ASEVER_ALLOC_CAP": str(4 << 30)}, shards=4)
+    rep.sample(first_cases(ff, 2, 100000)[-1].get("meta"))
+    rep.cov["distinct_nontrivial"] = sum(r1["outcomes"])
+    rep.assumptions.append("live heap measured by a counting global allocator around AsepriteFile::read (includes the cfg-guarded hook's event strings); "
+                           "requests above 768 MiB are refused by the allocator so that a hostile reservation becomes an abort event instead of exhausting the sandbox "
+                           "(inputs here are < 24 KiB, for which the bound is below the cap)")
+    rep.final = dict(rule="every size/count/length/dimension/index field of random sprites set to each boundary value up to its type maximum (one at a time), havoc mutants, "
+                          "deflate bombs; TLC checks peak_live <= 64 MiB + 8192 x input bytes on every load event; allocation-failure aborts reject",
+                     trusted=TRUSTED + ["counting allocator in harness/src/main.rs"])
+
+
+CHECKS.update({"C04": (c04, "fault_enumeration"), "C05": (c05, "fault_enumeration"), "C12": (c12, "fault_enumeration")})
+
+
+# ------------------------------------------------------------------------------------------
+# C18: utility helpers
+def c18(rep, work, tier, seed):
+    b = build("dev")
+    dims = 2 if tier == "quick" else 3
+    out, states = mc_run(rep, work, "MC_Util", {"MaxDim": dims, "MaxStrip": 5, "MaxPal": 3 if tier == "quick" else 4}, ["ExtrudeInv", "Export"], workers=4)
+    rgb = [[255, 0, 0], [0, 255, 0], [1, 2, 3], [9, 9, 9]]
+    queries = [c + [a] for c in rgb for a in (255, 128, 0)]
+    cases = work.path("util.ndjson")
+    def it():
+        for d in map(json.loads, extract_json_prints(out, "PROG")):
+            if d["kind"] == "map":
+                d["queries"] = queries
+                d["image"] = {"w": 3, "h": 2, "px": [queries[0], queries[3], queries[1], queries[9], queries[6], queries[2]]}
+            yield d
+    n = write_cases(cases, it())
+    rep.sample(first_cases(cases, 3)[-1])
+    res, _ = driver_stage(rep, work, b, "util", cases, "util", [], spec="Trace_Util", shards=8,
+                          kinds={"util_extrude_border", "util_palette_lookup", "util_to_indexed_image"})
+    rep.cov["traces_validated_against_impl"] += res["outcomes"][0] + res["outcomes"][2]
+    rep.cov["evaluations"] += res["outcomes"][0] + res["outcomes"][1]
+    rep.cov["distinct_nontrivial"] = res["outcomes"][0] + res["outcomes"][2]
+    if res["outcomes"][0] + res["outcomes"][2] != n:
+        rep.error(f"util: {n} cases exported, {res['outcomes']} evaluated")
+    rep.final = dict(rule=f"all images with w,h in 1..{dims} (and 1xN, Nx1 up to 5) over 3 colours; all palettes of <= 3/4 entries over 3 colours at first index 0 and 254 "
+                          "(duplicates, indices >= 256) x failure index x optional transparent index x 12 query colours (TLC enumerates; harness calls "
+                          "extrude_border / PaletteMapper / to_indexed_image with feature utils; TLC validates; for duplicate colours any matching index is accepted)",
+                     trusted=TRUSTED, exhaustive=True)
+
+
+CHECKS["C18"] = (c18, "model_checking")
+
+
+# ------------------------------------------------------------------------------------------
+# C16: immutable, thread-safe, deterministic value
+PROBE = f"{ROOT}/probe"
+
+
+def build_probe(rep):
+    """Compile the probe crate (Send + Sync assertion + thread driver). A compile failure that names Send/Sync while the
+    library itself compiles is the type-level part of C16 failing."""
+    r = subprocess.run(["cargo", "build", "--offline", "--quiet"], cwd=PROBE, capture_output=True, text=True, env=dict(os.environ, CARGO_NET_OFFLINE="true"))
+    if r.returncode == 0:
+        return f"{PROBE}/target/debug/asever_threads"
+    err = r.stderr
+    if re.search(r"cannot be (sent|shared) between threads safely|`(Send|Sync)` is not (implemented|satisfied)|the trait bound `[^`]*: (Send|Sync)`", err):
+        lib = subprocess.run(["cargo", "build", "--offline", "--quiet"], cwd="/repo", capture_output=True, text=True)
+        if lib.returncode == 0:
+            rep.violation("send_sync_probe", "AsepriteFile is not Send + Sync: the probe crate does not compile while the library does",
+                          {"property": "C16", "stage": "send_sync_probe", "compiler_output": err[-4000:]})
+            return None
+    raise ToolError("probe crate failed to build: " + err[-1500:])
+
+
+def c16(rep, work, tier, seed):
+    mc_run(rep, work, "MC_Api", {}, ["Immutable", "Functional", "Deterministic"], workers=8)
+    threads_bin = build_probe(rep)
+    b = build("dev")
+    # (a) same bytes loaded twice, observed twice: equal observations; validated against the specification as well
+    cases = work.path("twice.ndjson")
+    gen(b, cases, "default", seed + 11, 150 if tier == "quick" else 4000, twice=True)
+    res = stage_cases(rep, work, b, cases, "load-twice", fields=None)
+    need_ok(rep, res, "load-twice", 0.95)
+    # (b) optimised build without overflow checks (wrapping arithmetic): same observations, same blend results
+    rel = build("release")
+    cases2 = work.path("rel.ndjson")
+    gen(rel, cases2, "render", seed + 12, 200 if tier == "quick" else 5000)
+    res2 = stage_cases(rep, work, rel, cases2, "release-profile", fields=None)
+    for stratum, n in (("random", 40000 if tier == "quick" else 1000000), ("lattice", 30000 if tier == "quick" else 500000)):
+        blend_stage(rep, work, rel, stratum, seed + 13, n, BLEND_C03 | BLEND_C17)
+    # (c) threads
+    if threads_bin:
+        enc = work.path("enc.ndjson")
+        r = subprocess.run([b, "encode", "--in", cases, "--out", enc], capture_output=True, text=True)
+        if r.returncode != 0:
+            raise ToolError("encode failed: " + r.stderr[-300:])
+        with open(enc, "a") as f:
+            for c in corpus_case_lines(20000):
+                f.write(json.dumps({"id": c["id"], "hex": open(c["file"], "rb").read().hex()}) + "\n")
+        paths, nfiles = split_lines(enc, 4, work.path("thr.in"))
+        outs = []
+        for pth in paths:
+            o = pth.replace(".in.", ".ev.")
+            with open(pth) as fi, open(o, "w") as fo:
+                rr = subprocess.run([threads_bin, "16", "2" if tier == "quick" else "6", str(seed)], stdin=fi, stdout=fo, stderr=subprocess.PIPE, text=True)
+            if rr.returncode != 0:
+                rep.violation("threads_driver_crashed", rr.stderr[-500:], {"property": "C16", "stage": "threads", "stderr": rr.stderr[-2000:]})
+            outs.append(o)
+        resT = validate_traces("Trace_Api", outs, jvms=4)
+        rep.add_model(resT["generated"], resT["distinct"])
+        for e in resT["errors"]:
+            rep.error(f"threads: {e}")
+        for rej in resT["rejects"]:
+            rep.violation(sig_of_reject(rej), re.sub(r"\s+", " ", rej)[:800], {"property": "C16", "stage": "threads", "tlc": rej, "seed": seed})
+        rep.stage("threads", files=resT["outcomes"][0], concurrent_calls=resT["outcomes"][1], threads=16, rejects=len(resT["rejects"]))
+        log(f"[C16] threads: {resT['outcomes'][0]} files, {resT['outcomes'][1]} concurrent calls, rejects {len(resT['rejects'])}")
+        rep.cov["traces_validated_against_impl"] += resT["outcomes"][0]
+        rep.cov["concurrent_calls"] = resT["outcomes"][1]
+    rep.sample({"threads": 16, "calls": ["Obs (complete accessor sweep)", "Frame(f).image", "Cel(f,l) image/top_left/is_empty/user_data", "Layer(l) facts", "Debug"],
+                "schedule": "per-thread pseudo-random permutation with repetitions of the call list"})
+    rep.cov["distinct_nontrivial"] = res["outcomes"][0] + res2["outcomes"][0]
+    rep.assumptions.append("Send + Sync is a type-level fact decided by compiling /verif/probe (not by the TLA+ model)")
+    rep.final = dict(rule="AseApi threads machine (3 threads x <= 2 calls, all interleavings: results are a function of the call); implementation: every file loaded twice and "
+                          "observed twice (equal, and equal to the specification's observation); release profile (no overflow checks) validated against the same "
+                          "specification incl. blend vectors; 16 OS threads sharing one &AsepriteFile, each running a permutation with repetitions of the accessor "
+                          "calls, every result compared by TLC with the sequential baseline; Send + Sync compile probe",
+                     trusted=TRUSTED + ["/verif/probe thread driver"])
+
+
+CHECKS["C16"] = (c16, "model_checking")
